@@ -7,9 +7,9 @@ CONSTANTS
   FixT2 = TRUE
   TPSet <- TPt
   K = 1
-  SenVals <- SenB
+  SenVals <- SenA
   EnterVals <- EntC
-  MaxIds = 3
+  MaxIds = 2
   MaxFrames = 4
 INVARIANTS Exact NoWrap BestBounds
 VIEW TourView
